@@ -286,6 +286,14 @@ def run(ctx):
                         cex=dict(got=sorted(m.name for m in M.designated_values))))
         ctx.add(enum_ob(f'C07.{L}.unassigned', M.unassigned_value.name == S.NAME[sem.unassigned], got=M.unassigned_value.name,
                         cex=dict(got=M.unassigned_value.name)))
+        # the values a model hands to the truth function are THE members of the logic's value set (same objects): the unassigned
+        # value every unset atom evaluates to, the designated values, and the model class's own value set
+        members = list(M.values)
+        foreign = [f'{what} {v!r} of {type(v).__name__}' for what, v in [('unassigned_value', M.unassigned_value)] + [('designated value', d) for d in M.designated_values]
+                   + [('Model.values member', v) for v in logic.Model.values] + [('Model.unassigned_value', getattr(logic.Model, 'unassigned_value', M.unassigned_value))]
+                   if not any(v is m for m in members)]
+        ctx.add(enum_ob(f'C07.{L}.value-set.own-members', not foreign, logic=L, kind='value-set', cex=dict(foreign=foreign[:4]) if foreign else None,
+                        clause='Meta.unassigned_value, every designated value and every Model.values member is a member (same object) of Meta.values'))
         # numeric order of the enum must respect the names the bodies compare with (F least, T greatest)
         nums = {m.name: float(m.value) for m in M.values}
         ctx.add(enum_ob(f'C07.{L}.encoding', nums.get('F') == 0.0 and nums.get('T') == 1.0 and all(0 <= v <= 1 for v in nums.values()) and len(set(nums.values())) == len(nums),
@@ -303,6 +311,17 @@ def run(ctx):
             fi = source.of_function(source.defining_class(tfcls, op.name).__dict__[op.name])
             ctx.add(Obligation(f'C07.{L}.{op.name}.table.enum', not bad, kind='enum', where=fi.where,
                                meta=dict(logic=L, operator=op.name, tuples=len(st), cex=(bad[0] if bad else None), cex_all=bad or None)))
+            # ... and on the value objects a model really passes: an unset atom's value (Meta.unassigned_value) joined with each member
+            badu = []
+            u = M.unassigned_value
+            for tup in itertools.product([u] + list(logic.Model.values), repeat=S.ARITY[op.name]):
+                if not any(x is u for x in tup): continue
+                try: got = getattr(logic.Model.truth_function, op.name)(*tup).name
+                except Exception as e: got = f'exception {type(e).__name__}'
+                want = rt.get(tuple(x.name for x in tup))      # the same tuple on the value set's own members (their agreement with the documented table is the .table.enum obligation)
+                if got != want: badu.append(dict(args=[x.name for x in tup], got=got, want=want, unassigned_at=[i for i, x in enumerate(tup) if x is u]))
+            ctx.add(Obligation(f'C07.{L}.{op.name}.table.unassigned-operand', not badu, kind='enum', where=fi.where,
+                               meta=dict(logic=L, operator=op.name, kind='unassigned-operand', cex=(badu[0] if badu else None), cex_all=badu or None)))
         for op in ops:
             truth_table_obligation(logic, op.name, ctx)
             truth_table_real(logic, op.name, ctx)
@@ -356,6 +375,16 @@ def replay(payload):
                 if out != want or t.mapping.get(tup) != want:
                     return dict(reproduced=True, detail=f"after the calls truth_table({op}, reverse=r) for r in {cex['history']}: the table returned for reverse={rev} maps ({', '.join(v.name for v in tup)}) to {out.name}, the truth function gives {want.name}")
         return dict(reproduced=False, detail='the real truth_table agrees with the truth function on this history')
+    if meta.get('kind') == 'value-set' and L:
+        M = reg(L).Meta
+        foreign = [repr(v) for v in [M.unassigned_value, *M.designated_values, *reg(L).Model.values] if not any(v is m for m in M.values)]
+        return dict(reproduced=bool(foreign), detail=f'{L}: values handed to the truth function that are not members of Meta.values: {foreign}' if foreign else f'{L}: all are members')
+    if meta.get('kind') == 'unassigned-operand' and L and op and isinstance(cex, dict) and 'args' in cex:
+        logic = reg(L); u = logic.Meta.unassigned_value
+        args = [u if i in cex.get('unassigned_at', []) else logic.Model.values[n] for i, n in enumerate(cex['args'])]
+        try: got = getattr(logic.Model.truth_function, op)(*args).name
+        except Exception as e: got = f'exception {e!r}'
+        return dict(reproduced=got != cex.get('want'), detail=f'{L}.Model.truth_function.{op} on {cex["args"]} with Meta.unassigned_value at {cex.get("unassigned_at")} = {got}; table says {cex.get("want")}')
     if not (L and op and isinstance(cex, dict) and 'args' in cex):
         return dict(reproduced=None, detail='ground obligation; see meta')
     logic = reg(L)
